@@ -32,6 +32,10 @@ MisuseKinds == {"param_ARGS", "param_KWARGS", "kw_ARGS", "kw_KWARGS", "kw_ARGS_r
                 "capture_noname_default", "capture_noname_kwdefault",
                 \* falsy values that are no exception class / instance / function either
                 "error_empty_str", "error_zero", "error_empty_list", "error_false",
+                \* the reserved parameter on an OVERRIDE that merely inherits contracts (the metaclass creates its checker)
+                "param_ARGS_inherited", "param_KWARGS_inherited",
+                \* a coroutine-function condition of an invariant that also configures an error
+                "inv_coroutine_error_class", "inv_coroutine_error_factory",
                 "inv_extra_param", "inv_coroutine",
                 \* (self, *args) / (self, **kwargs) / (*args) / (self, *, k): all take something besides self;
                 \* (self, other=1) never receives anything but its default: by design no misuse
@@ -51,6 +55,8 @@ MisuseApplies(m, d, c) ==
   CASE m \in {"param_ARGS", "param_KWARGS", "kw_ARGS", "kw_KWARGS"} -> d \in {"require", "ensure"} /\ c \notin {"class", "getter"}
     \* the reserved keyword is passed by a call the function's own condition makes (a re-entrant, unchecked call)
     [] m \in {"kw_ARGS_reentrant", "kw_KWARGS_reentrant"} -> d \in {"require", "ensure"} /\ c \in {"function", "method", "static"}
+    [] m \in {"param_ARGS_inherited", "param_KWARGS_inherited"} -> d \in {"require", "ensure"} /\ c \in {"method", "async_method", "static", "classm"}
+    [] m \in {"inv_coroutine_error_class", "inv_coroutine_error_factory"} -> d = "invariant" /\ c = "class"
     [] m \in ReservedPost -> d \in {"require", "ensure"} /\ c \notin {"class", "getter"}
     [] m \in InvParamKinds \cup {"inv_coroutine"} -> d = "invariant" /\ c = "class"
     [] m \in {"snapshot_no_post", "capture_noname_0", "capture_noname_2", "snapshot_dup", "capture_noname_default",
@@ -60,7 +66,8 @@ MisuseApplies(m, d, c) ==
 
 \* when and how it must be rejected ("never" = it is no misuse in this cell)
 MisuseExpected(m, d, c) ==
-  CASE m \in {"param_ARGS", "param_KWARGS"} -> [moment |-> "decorate", exc |-> "TypeError"]
+  CASE m \in {"param_ARGS", "param_KWARGS", "param_ARGS_inherited", "param_KWARGS_inherited"} -> [moment |-> "decorate", exc |-> "TypeError"]
+    [] m \in {"inv_coroutine_error_class", "inv_coroutine_error_factory"} -> [moment |-> "create", exc |-> "ValueError"]
     [] m \in {"kw_ARGS", "kw_KWARGS", "kw_ARGS_reentrant", "kw_KWARGS_reentrant"} -> [moment |-> "call", exc |-> "TypeError"]
     [] m \in ReservedPost ->
          \* only a function with postconditions reserves these names
@@ -172,8 +179,23 @@ MetaApplies(c) ==
 MetaExpected(c) == "same"
 Transparent == (cell.t = "meta" /\ MetaApplies(cell)) => MetaExpected(cell) = "same"
 
+\* C14 (cont.): unusual but legitimate CALL and CLASS-STATEMENT shapes behave as on the bare class
+CallShapes == {"self_by_keyword",            \* Cls.m(self=inst)
+               "posonly_self_kw_named_self", \* def update(self, /, **fields); obj.update(self=marker, a=1)
+               "init_posonly_self_kw",       \* def __init__(self, /, **fields); Cls(self=marker)
+               "class_keywords",             \* class T(Base, tag="x") with __init_subclass__(cls, tag="none")
+               "class_keywords_grandchild",
+               "builtin_list_base",          \* class Batch(list) with invariants: Batch([3, 1, 2])
+               "builtin_dict_base"}
+CallHows == {"invariant", "dbc_invariant", "dbc_require"}
+CallCells == {[t |-> "calls", shape |-> sh, how |-> h] : sh \in CallShapes, h \in CallHows}
+CallApplies(c) == c.shape \in {"builtin_list_base", "builtin_dict_base"} => c.how = "invariant"
+CallExpected(c) == "same"
+SameCalls == (cell.t = "calls" /\ CallApplies(cell)) => CallExpected(cell) = "same"
+
 -----------------------------------------------------------------------------
-Cells == CASE Table = "meta" -> {c \in MetaCells : MetaApplies(c)}
+Cells == CASE Table = "calls" -> {c \in CallCells : CallApplies(c)}
+           [] Table = "meta" -> {c \in MetaCells : MetaApplies(c)}
            [] Table = "misuse" -> {c \in MisuseCells : MisuseApplies(c.m, c.d, c.c)}
            [] Table = "config" -> {c \in ConfigCells : ConfigApplies(c.d, c.c)}
            [] Table = "ctor" -> {c \in CtorCells : CtorApplies(c)}
@@ -182,7 +204,8 @@ TNext == UNCHANGED tvars
 TSpec == TInit /\ [][TNext]_tvars
 
 Expected ==
-  CASE cell.t = "meta" -> [cell |-> cell, moment |-> MetaExpected(cell), exc |-> "", on |-> FALSE, ok |-> FALSE]
+  CASE cell.t = "calls" -> [cell |-> cell, moment |-> CallExpected(cell), exc |-> "", on |-> FALSE, ok |-> FALSE]
+    [] cell.t = "meta" -> [cell |-> cell, moment |-> MetaExpected(cell), exc |-> "", on |-> FALSE, ok |-> FALSE]
     [] cell.t = "misuse" -> [cell |-> cell, moment |-> MisuseExpected(cell.m, cell.d, cell.c).moment,
                              exc |-> MisuseExpected(cell.m, cell.d, cell.c).exc, on |-> FALSE, ok |-> FALSE]
     [] cell.t = "config" -> [cell |-> cell, moment |-> "", exc |-> "", on |-> Enabled(cell.arg, cell.mode, cell.env), ok |-> FALSE]
